@@ -3,4 +3,4 @@
 cd "$(dirname "$0")" || exit 2
 export PYTHONPATH="$(pwd):/repo"
 /venv/bin/python -c 'from harness import core; print(core.regen_consts())' || exit 2
-cd lean && flock .build.lock lake build Afkak AfkakProofs AfkakProps afkak_model
+cd lean && flock .build.lock lake build Afkak AfkakProofs AfkakProps Driver model_partitioner model_assign model_wire model_brokerclient model_client model_producer model_consumer model_group
